@@ -80,6 +80,7 @@ type FuncSpec struct {
 	Fresh    []Clause // results declared fresh
 	Reveal   []string // opaque macros unfolded while verifying this function
 	Havocs   []Clause // arguments whose reachable memory is arbitrary after the call
+	Inlines  []string // callees (short names) whose bodies are inlined here although they have contracts
 }
 
 // Macro is a spec-level definition.
@@ -445,6 +446,8 @@ func parseClause(fs *FuncSpec, word, rest string, line int) error {
 		fs.Ghost = append(fs.Ghost, splitNames(rest)...)
 	case "reveal":
 		fs.Reveal = append(fs.Reveal, splitNames(rest)...)
+	case "inlines":
+		fs.Inlines = append(fs.Inlines, splitNames(rest)...)
 	case "havocs":
 		for _, part := range splitTop(rest) {
 			x, err := ParseExpr(part)
